@@ -115,7 +115,15 @@ def sh(cmd, cwd=None, timeout=3600):
 
 
 def lake_build(targets=''):
-    rc, out = sh('lake build ' + targets, cwd=LEAN_DIR)
+    # checks of several properties may run side by side (also on a tree where nothing is built yet): Lake has no
+    # build lock of its own, two cold builds would write the same .olean files at the same time
+    import fcntl
+    with open(os.path.join(LEAN_DIR, '.build.lock'), 'w') as lk:
+        fcntl.flock(lk, fcntl.LOCK_EX)
+        try:
+            rc, out = sh('lake build ' + targets, cwd=LEAN_DIR)
+        finally:
+            fcntl.flock(lk, fcntl.LOCK_UN)
     return rc == 0, out
 
 
